@@ -51,7 +51,10 @@ Lemma nl_imm_code r v : forallb nolab (imm_code r v) = true.
 Proof. unfold imm_code. nl; apply nl_imm_pieces. Qed.
 Lemma nl_load_immediate t i : forallb nolab (a_load_immediate t i) = true.
 Proof. unfold a_load_immediate. destruct t; [apply nl_imm_code|]. rewrite forallb_app, nl_imm_code. reflexivity. Qed.
-Lemma nl_add_and_jump t i : forallb nolab (a_add_and_jump t i) = true. Proof. unfold a_add_and_jump. nl. Qed.
+Lemma nl_add_offset r i : forallb nolab (add_offset r i) = true.
+Proof. unfold add_offset. destruct (add_imm_fits i); [reflexivity|]. rewrite forallb_app, nl_imm_code. reflexivity. Qed.
+Lemma nl_add_and_jump t i : forallb nolab (a_add_and_jump t i) = true.
+Proof. unfold a_add_and_jump. destruct t; rewrite ?forallb_app, nl_add_offset; reflexivity. Qed.
 Lemma nl_compare a b : forallb nolab (compare a b) = true. Proof. unfold compare. nl. Qed.
 Lemma nl_compare_immediate a i : forallb nolab (compare_immediate a i) = true. Proof. unfold compare_immediate. nl. Qed.
 Lemma nl_print nl_ t c : forallb nolab (a_print nl_ t c) = true.
